@@ -369,7 +369,19 @@ fn check_cli(c: &Case, ctx: &Ctx) -> Outcome {
             f2 = cli::p(&link);
         }
     }
-    std::fs::write(dir.join("list.txt"), format!("smp\t{f1}\t{f2}\n")).unwrap();
+    // a quarter of the lists also name an assembly (before or behind the read pair): the count and quality rules are
+    // about the reads, whatever else is built in the same run
+    let companion = (c.k / 2 + c.min_qual as usize + m.reads.len()) % 4 == 0;
+    if companion {
+        cli::write_fasta_auto(&dir.join("asm.fa"), &[gen::filler(c.k + 8, 13)], None);
+        if c.reads.len() % 2 == 0 {
+            std::fs::write(dir.join("list.txt"), format!("asm\tasm.fa\nsmp\t{f1}\t{f2}\n")).unwrap();
+        } else {
+            std::fs::write(dir.join("list.txt"), format!("smp\t{f1}\t{f2}\nasm\tasm.fa\n")).unwrap();
+        }
+    } else {
+        std::fs::write(dir.join("list.txt"), format!("smp\t{f1}\t{f2}\n")).unwrap();
+    }
     let (ks, cs, qs) = (c.k.to_string(), c.min_count.to_string(), c.min_qual.to_string());
     let rule = ["no-filter", "middle", "strict"][c.rule as usize % 3];
     let mut args = vec!["build", "-f", "list.txt", "-o", "x", "-k", &ks, "--min-count", &cs, "--min-qual", &qs, "--qual-filter", rule];
@@ -393,7 +405,8 @@ fn check_cli(c: &Case, ctx: &Ctx) -> Outcome {
             return Err(format!("INFRA {e}"));
         }
         let nk = model::parse_nk(&o2.out_str())?;
-        Ok(nk.rows.into_iter().map(|(a, r)| (a, r[0])).collect())
+        let col = nk.names.iter().position(|n| n == "smp").ok_or_else(|| format!("sample smp is not in the file: {:?}", nk.names))?;
+        Ok(nk.rows.into_iter().filter(|(_, r)| r[col] != b'-').map(|(a, r)| (a, r[col])).collect())
     })();
     ctx.done(&dir);
     judge(c, &m, obs, ctx)
